@@ -107,6 +107,10 @@ static int on_term_resize(TickitTerm *term, TickitEventFlags flags, void *_info,
   int oldlines = win->rect.lines;
   int oldcols  = win->rect.cols;
 
+  /* A geomchange handler may drop the last reference to the root; it is still
+   * used below */
+  tickit_window_ref(win);
+
   tickit_window_resize(win, info->lines, info->cols);
   DEBUG_LOGF("Ir", "Resize to %dx%d",
       info->cols, info->lines);
@@ -130,6 +134,8 @@ static int on_term_resize(TickitTerm *term, TickitEventFlags flags, void *_info,
     };
     tickit_window_expose(win, &damage);
   }
+
+  tickit_window_unref(win);
 
   return 1;
 }
